@@ -144,7 +144,7 @@ func rule042(r *core.Run) {
 		s := r.P.SliceOf(st.Val, core.SliceOpts{Depth: -1})
 		okArm := false
 		for _, g := range core.GuardsOf(st) {
-			gs := r.P.SliceOf(g.If.Cond, core.SliceOpts{Depth: -1})
+			gs := r.P.SliceOf(g.If.Cond, core.SliceOpts{Depth: -1, Control: true})
 			cd := core.CondOf(g.If.Cond)
 			if eq, ok := g.Equality(); gs.Has("field:gofakes3.ObjectList.NextMarker") && gs.Has("const:") && ok && !eq {
 				_ = cd
@@ -269,7 +269,7 @@ func rule044(r *core.Run) {
 		case "goskipiter.(*Iterator).Next":
 			// the skip: a Next call guarded by Key() == page.Marker
 			for _, g := range core.GuardsOf(c) {
-				gs := r.P.SliceOf(g.If.Cond, core.SliceOpts{Depth: -1})
+				gs := r.P.SliceOf(g.If.Cond, core.SliceOpts{Depth: -1, Control: true})
 				cd := core.CondOf(g.If.Cond)
 				if eq, ok := g.Equality(); gs.Has("call:goskipiter.(*Iterator).Key") && gs.Has("field:gofakes3.ListBucketPage.Marker") && ok && eq {
 					skip = c
@@ -308,7 +308,7 @@ func rule044(r *core.Run) {
 			if shared {
 				continue
 			}
-			gs := r.P.SliceOf(g.If.Cond, core.SliceOpts{Depth: -1})
+			gs := r.P.SliceOf(g.If.Cond, core.SliceOpts{Depth: -1, Control: true})
 			cd := core.CondOf(g.If.Cond)
 			if !(gs.Has("call:goskipiter.(*Iterator).Key") && gs.Has("field:gofakes3.ListBucketPage.Marker") && cd.Op == token.EQL) {
 				skip = nil
@@ -357,7 +357,7 @@ func rule045(r *core.Run) {
 		}
 		okArm := false
 		for _, g := range core.GuardsOf(ret) {
-			gs := r.P.SliceOf(g.If.Cond, core.SliceOpts{Depth: -1})
+			gs := r.P.SliceOf(g.If.Cond, core.SliceOpts{Depth: -1, Control: true})
 			cd := core.CondOf(g.If.Cond)
 			if gs.Has("call:gofakes3.(ListBucketPage).IsEmpty") && (g.Branch != cd.Neg) == false {
 				okArm = true
@@ -415,7 +415,7 @@ func rule045(r *core.Run) {
 	sameArgs := retry.Call.Args[0] == first.Call.Args[0]
 	errEq, optOff := false, false
 	for _, g := range core.GuardsOf(retry) {
-		gs := r.P.SliceOf(g.If.Cond, core.SliceOpts{Depth: -1})
+		gs := r.P.SliceOf(g.If.Cond, core.SliceOpts{Depth: -1, Control: true})
 		cd := core.CondOf(g.If.Cond)
 		truth := g.Branch != cd.Neg
 		if eq, ok := g.Equality(); gs.Has("interr:PaginationNotImplemented") && ok && eq && gs.HasValue(first) {
@@ -435,7 +435,7 @@ func rule045(r *core.Run) {
 			continue
 		}
 		for _, g := range core.GuardsOf(ret) {
-			gs := r.P.SliceOf(g.If.Cond, core.SliceOpts{Depth: -1})
+			gs := r.P.SliceOf(g.If.Cond, core.SliceOpts{Depth: -1, Control: true})
 			cd := core.CondOf(g.If.Cond)
 			if gs.Has("field:gofakes3.GoFakeS3.failOnUnimplementedPage") && g.Branch != cd.Neg {
 				okRef = true
